@@ -160,6 +160,18 @@ CHECKS = {
             "Trusts the stand-in driver's plausibility and the hand-written lexer; semantics against a real "
             "Neo4j/APOC are not observable offline.",
             "DESIGN.md §3 C19"),
+    "C20": ("schedule exploration with a harness-owned deterministic scheduler (cooperative lock substituted for "
+            "storage.lock, preemption at every source line of the store files): enumeration of single preemptions, "
+            "Hypothesis-generated programs/schedules; fault-sequence enumeration for the single-thread lock clause",
+            "(a) every sequence of <=2 (quick) / <=3 (thorough) store calls incl. failing ones on both stores plus "
+            "generated longer ones: lock acquire/release balance, lock free on return and on exception, no lock error. "
+            "(b) 2-3 threads x 1-3 store operations: every single preemption point x target thread for fixed 2-thread "
+            "programs (thorough: preemption pairs), plus generated programs with up to 6 preemptions; the final store "
+            "must equal some serial order of the operations (reference model), no deadlock, id counters above ids in "
+            "use. Line-granularity schedules only; exploration, not proof.",
+            "Trusts the scheduler (engines/sched.py), the reference model's per-operation effects and sys.settrace "
+            "line events as the preemption granularity.",
+            "DESIGN.md §3 C20"),
 
 }
 
